@@ -195,7 +195,9 @@ def run_task(t):
                 sc.assume += [E.var('tmk') > 0, E.var('sm0') != 0] + [E.var(h) > E.var('tmc') for h in pr.h]
             check_layout(sc, o, d, N, kind, fl, op, xs, pts, blocks, n, maps, True)
             # the reference-duration region forces the recorded branch of toTau/toTime in the round trip (so the two regions cover h > 0)
-            rt_forks = [f for f in sc.dag.path if set(sc.dag.vars_of([x for x in (f[1], f[2]) if x >= 0])) & set(pr.h)]
+            # the branch tests of the time map: comparisons of a quantity derived from a reference duration with a CONSTANT (T > 1, tau > 0, t < 1e-3)
+            rt_forks = [f for f in sc.dag.path if f[0] in ('lt', 'le') and f[1] >= 0 and f[2] >= 0 and (sc.dag.nodes[f[1]][0] == D.CONST or sc.dag.nodes[f[2]][0] == D.CONST)
+                        and set(sc.dag.vars_of([x for x in (f[1], f[2]) if x >= 0])) & set(pr.h)]
             if rt_forks:
                 pf = [E.path_formula(f) for f in rt_forks]
                 r = R.solve('rt', sc.base(False) + [z3.Not(z3.And(pf))], t['timeout'])
